@@ -1,5 +1,6 @@
 #![allow(dead_code)]
 mod byz;
+mod forge;
 mod harness;
 mod histarm;
 mod model;
